@@ -9,10 +9,19 @@ RULE = ("operand pairs of mp::SafeInt<T> +,-,* and the converting constructor ju
         "both representable and overflowing pairs; distinct = distinct (mode,type,op) signatures")
 
 
+def builds():
+    return dict(full=build.build('asanfull', 'safeint_mon', ['safeint_mon.cc'], lib=False),
+                plain=build.build('plain', 'safeint_mon', ['safeint_mon.cc'], lib=False))
+
+
+def prebuild():
+    builds()
+
+
 def main(tier, seed):
     ctx = run.Ctx('C17', tier, seed)
-    exe_full = build.build('asanfull', 'safeint_mon', ['safeint_mon.cc'], lib=False)
-    exe_plain = build.build('plain', 'safeint_mon', ['safeint_mon.cc'], lib=False)
+    b = builds()
+    exe_full, exe_plain = b['full'], b['plain']
     totals = dict(pairs=0, ok=0, overflow=0)
 
     def on_line(mode):
